@@ -4,7 +4,7 @@ import copy
 import iso8601
 
 from ..backends import BACKENDS, Store
-from ..gen import canon, dt_us, mk_dt, mk_event, rand_data, rand_instant, rand_offset
+from ..gen import batch_edge, canon, dt_us, mk_dt, mk_event, rand_data, rand_instant, rand_offset
 from ._st import dump_store, raw_uids, raw_view
 
 ID = "C05"
@@ -37,6 +37,26 @@ def _meta_vals(rng):
 
 
 def gen_case(rng, ctx):
+    n_gen = ctx.counters.get("cases_generated", 0)
+    ctx.count("cases_generated")
+    if n_gen == 1 and ctx.widx % 2 == 0:
+        # once per run and worker: a bucket with many thousands of events (counts around likely batch sizes) is deleted and
+        # its id - and a brand-new id - created again; whatever deletes in batches must not leave anything behind
+        backend = "peewee" if ctx.widx % 4 == 0 else "sqlite"
+        n = batch_edge(rng, 22000) if rng.random() < 0.7 else rng.choice([10001, 12500, 20001])
+        n = max(n, 9000)
+        evs = [dict(ts=10**15 + i * 1000, dur=1000, data={"uid": 10**6 + i}) for i in range(n)]
+        steps = [dict(op="create", b=0, type="t", client="c", hostname="h"),
+                 dict(op="write", b=0, evs=[dict(ts=10**15, dur=0, data={"uid": 1})], stale=False),
+                 dict(op="create", b=1, type="t", client="c", hostname="h"),
+                 dict(op="write", b=1, evs=evs, stale=False),
+                 dict(op="metadata", b=1, stale=False),
+                 dict(op="delete", b=1),
+                 dict(op="create", b=1, type="t2", client="c2", hostname="h2"),
+                 dict(op="listing", b=1),
+                 dict(op="create", b=2, type="t3", client="c3", hostname="h3"),
+                 dict(op="metadata", b=2, stale=False)]
+        return dict(backend=backend, pool=["keep", "big", "brand-new"], steps=steps, quiet=False, big=n)
     backend = BACKENDS[rng.randrange(3)]
     pool = rng.sample(IDS, rng.randrange(4, 7))
     steps = []
